@@ -18,7 +18,8 @@
 (*   next   set of <<block, height>>: validated announced headers          *)
 (*   sync   [fetching, resp]  fetch flag and stored (partial) response     *)
 (*   fee    [tip, vals]    fee percentile cache (tip = 0: never computed)  *)
-(*   cnt    counters       [rej, deser, ins, reqInit, reqFollow, sendtx]   *)
+(*   cnt    counters       [rej, deser, ins, reqInit, reqFollow, sendtx,   *)
+(*                          burnt]                                         *)
 (*   now    current time (seconds relative to genesis time)                *)
 (*   known  blocks of the tree whose insertion-time metrics are present    *)
 (*   flight set of heartbeat ids suspended at the get_successors await     *)
@@ -47,7 +48,7 @@ NoIng  == [b |-> 0, k |-> 0]
 NoResp == [k |-> "none"]
 NoReq  == [k |-> "none"]
 NoFee  == [tip |-> 0, vals |-> <<>>]
-ZeroCnt == [rej |-> 0, deser |-> 0, ins |-> 0, reqInit |-> 0, reqFollow |-> 0, sendtx |-> 0]
+ZeroCnt == [rej |-> 0, deser |-> 0, ins |-> 0, reqInit |-> 0, reqFollow |-> 0, sendtx |-> 0, burnt |-> 0]
 
 InitState(c) ==
   [cfg |-> c, stable |-> <<>>, T |-> [anchor |-> 1, arr |-> <<1>>], ing |-> NoIng, next |-> {},
@@ -250,7 +251,11 @@ HbFirstWith(m, r) ==
             IN [m |-> CountRequest([m EXCEPT !.sync.fetching = TRUE], req), req |-> req, st |-> "await"]
        ELSE [m |-> FeeStep(Process(m)), req |-> NoReq, st |-> "done"]
 
-HbFirst(m, B) == HbFirstWith(m, IngestRun(m, B, FALSE))
+\* heartbeat.rs maybe_burn_cycles: the first thing every heartbeat does when burn_cycles is enabled; the
+\* unit is what the runtime reports as burnt by one call (the whole balance on the IC)
+Burn(m) == IF m.cfg.burn THEN [m EXCEPT !.cnt.burnt = @ + 1] ELSE m
+
+HbFirst(m, B) == HbFirstWith(Burn(m), IngestRun(Burn(m), B, FALSE))
 
 \* the second half, for a heartbeat whose call (if any) is answered at once
 HbSecond(f, reply) ==
